@@ -410,3 +410,269 @@ func streamQl(o opts) {
 	m.Traces, m.Ops = w.traces, w.ops
 	m.write(o.out)
 }
+
+// ---------------------------------------------------------------------------------------------
+// "qc": cache-level T-lockstep for the asynchronous write pipeline (C04, C07, C08). Threads calling
+// SetAsync / Set / Sync / Close / Get-miss on ONE key of a one-shard real cache, plus the shard's write
+// worker (adopted by the scheduler), run under random schedules; after every step the yield point or the
+// operation result AND the shared queue state (head, tail, wakeState, wake/space tokens, closeCh, drain
+// token) are compared with QueueLts. Steps that would block are never scheduled (enabledness is computed
+// from the real state), two-way selects with both cases ready report the branch Go took as an oracle bit.
+
+const sidQc = 42
+
+func qcInModel(p int) bool {
+	switch {
+	case p <= 0, p >= 101 && p <= 108, p >= 121 && p <= 126, p >= 301 && p <= 313, p >= 321 && p <= 323, p >= 331 && p <= 333, p >= 339 && p <= 343:
+		return true
+	}
+	return false
+}
+
+// qcStep runs thread id to its next yield point that the queue model knows (table yields are passed through).
+func qcStep(id int) int {
+	for {
+		p := kioshun.VerifSchedStep(id)
+		if qcInModel(p) {
+			return p
+		}
+	}
+}
+
+type qcThread struct {
+	tid, sid   int // model thread index, scheduler id
+	kind       int
+	left       int
+	at         int // yield point parked at
+	res        lsResult
+	ackOrd     int64 // ordinal of the barrier this thread has in flight
+	inBarrier  bool
+	finished   bool
+	syncResult *int64
+}
+
+func streamQc(o opts) {
+	r := newRand(o.seed, "qc")
+	m := newMeta("qc", o.seed)
+	m.Rule = "1-3 SetAsync producers, 0-2 synchronous Set writers, 0-1 Sync callers, 0-1 Close caller, 0-1 Get-miss helper (SieveTinyLFU) and the adopted write worker on a one-shard REAL cache with ring 2 or 4 and batch 1-3, all writes to one key; a random schedule interleaves them at every yield point; only enabled steps are scheduled (blocking points are decided from the real lock/channel state); after every step the yield point or result and the shared queue state are compared with QueueLts; at the end (no Close) the key's value must be the last write the model applied; non-trivial = schedule with a queued write, a worker drain and a lap or a Sync; distinct by (ring, batch, thread mix)"
+	w := newTraceWriter(o.out, "qc")
+	for t := 0; t < o.n; t++ {
+		pol := pick(r, []kioshun.EvictionPolicy{kioshun.LRU, kioshun.FIFO, kioshun.SieveTinyLFU, kioshun.SieveTinyLFU})
+		conf := kioshun.Config{ShardCount: 1, MaxSize: 64, EvictionPolicy: pol, WriteBufferSize: pick(r, []int{2, 2, 4}), WriteBatchSize: pick(r, []int{1, 2, 3})}
+		ctx := fmt.Sprintf("qc trace %d cfg %+v", t, conf)
+		watch(ctx)
+		kioshun.VerifSchedReset(true, 3*time.Second)
+		kioshun.VerifSchedAdoptWorkers(true)
+		c, err := kioshun.New[int, int](conf)
+		must(err)
+		for i := 0; i < 5000 && !kioshun.VerifSchedKnown(1000); i++ {
+			time.Sleep(100 * time.Microsecond)
+		}
+		kioshun.VerifSchedAdoptWorkers(false)
+		_, _, _, ring := c.VerifRingState(0)
+		w.T(sidQc, ints(int64(ring), int64(conf.WriteBatchSize)))
+		acks0 := kioshun.VerifAcksSent()
+		var ths []*qcThread
+		nextID := int64(0)
+		mk := func(kind, nops int) {
+			th := &qcThread{tid: len(ths), sid: len(ths) + 1, kind: kind, left: nops}
+			ths = append(ths, th)
+			var fs []func() lsResult
+			for j := 0; j < nops; j++ {
+				nextID++
+				id := nextID
+				w.O(ints(1, int64(th.tid), int64(kind), id), &toks{})
+				code := func(e error) lsResult {
+					if e != nil {
+						return lsResult{3, 0}
+					}
+					return lsResult{0, 0}
+				}
+				switch kind {
+				case 11:
+					fs = append(fs, func() lsResult { return code(c.SetAsync(7, int(id), kioshun.NoExpiration)) })
+				case 12:
+					fs = append(fs, func() lsResult { return code(c.Set(7, int(id), kioshun.NoExpiration)) })
+				case 13:
+					fs = append(fs, func() lsResult { return code(c.Sync()) })
+				case 14:
+					fs = append(fs, func() lsResult { c.Close(); return lsResult{} })
+				case 16:
+					fs = append(fs, func() lsResult { c.Get(999); return lsResult{} })
+				}
+			}
+			sid := th.sid
+			kioshun.VerifSchedSpawn(sid, func() {
+				defer func() {
+					if p := recover(); p != nil {
+						for _, prop := range []string{"C04", "C07", "C08"} {
+							m.violate(prop, fmt.Sprintf("%s: panic in a public call under the scheduler: %v", ctx, p), ctx)
+						}
+					}
+				}()
+				for _, f := range fs {
+					th.res = f()
+					kioshun.VerifYield(0)
+				}
+			})
+		}
+		np := 1 + r.Intn(3)
+		for i := 0; i < np; i++ {
+			mk(11, 1+r.Intn(4))
+		}
+		for i, n := 0, r.Intn(3); i < n; i++ {
+			mk(12, 1+r.Intn(2))
+		}
+		hasSync := r.Intn(2) == 0
+		if hasSync {
+			mk(13, 1+r.Intn(2))
+		}
+		hasClose := r.Intn(3) == 0
+		if hasClose {
+			mk(14, 1)
+		}
+		if pol == kioshun.SieveTinyLFU && r.Intn(2) == 0 {
+			mk(16, 1+r.Intn(3))
+		}
+		worker := &qcThread{tid: len(ths), sid: 1000, kind: 15, left: 1, at: -100}
+		ths = append(ths, worker)
+		w.O(ints(1, int64(worker.tid), 15, 0), &toks{})
+		// the adopted worker is parked at its entry (point 0)
+		if p := kioshun.VerifSchedStep(1000); p != 0 {
+			m.count("qc_setup_failed")
+		}
+		worker.at = 0
+		barriers := int64(0)
+		steps, sawQueued, sawDrain, sawLapOrSync := 0, false, false, false
+		snapshot := func(obs *toks) {
+			h, tl, ws, _ := c.VerifRingState(0)
+			dfree, _, wtok, stok, closed := c.VerifLockState(0)
+			obs.I(int64(h), int64(tl), int64(ws)).B(wtok).B(stok).B(closed).B(dfree)
+		}
+		for steps < 2500 {
+			h, tl, _, _ := c.VerifRingState(0)
+			dfree, _, wtok, stok, closed := c.VerifLockState(0)
+			acked := kioshun.VerifAcksSent() - acks0
+			if h != tl {
+				sawQueued = true
+			}
+			if h-tl >= uint64(ring) {
+				sawLapOrSync = true
+			}
+			var enabled []*qcThread
+			for _, th := range ths {
+				if th.finished || (th.at == 0 && th.left == 0) {
+					continue
+				}
+				switch th.at {
+				case 108:
+					if !stok && !closed {
+						continue
+					}
+				case 301:
+					if !wtok && !closed {
+						continue
+					}
+				case 311, 331:
+					if !dfree {
+						continue
+					}
+				case 340:
+					if acked < th.ackOrd && !closed {
+						continue
+					}
+				case 341:
+					if !worker.finished {
+						continue
+					}
+				}
+				enabled = append(enabled, th)
+			}
+			if len(enabled) == 0 {
+				break
+			}
+			th := pick(r, enabled)
+			both := false
+			switch th.at {
+			case 108:
+				both = stok && closed
+			case 301:
+				both = wtok && closed
+			case 340:
+				both = acked >= th.ackOrd && closed && th.kind == 13
+			}
+			was := th.at
+			p := qcStep(th.sid)
+			steps++
+			choice := int64(0)
+			obs := &toks{}
+			switch {
+			case p == kioshun.VerifStepBlocked || p == kioshun.VerifStepUnknown:
+				for _, prop := range []string{"C04", "C07", "C08"} {
+					m.violate(prop, fmt.Sprintf("%s: thread %d (kind %d) parked at %d was enabled according to the real lock/channel state but did not reach a yield point within 3 s", ctx, th.tid, th.kind, was), ctx)
+				}
+				obs.I(-2)
+				th.finished = true
+			case p == kioshun.VerifStepDone:
+				th.finished = true
+				obs.I(-1, 0, 0)
+				if both && was == 301 {
+					choice = 1
+				}
+			case p == 0:
+				th.left--
+				th.inBarrier = false
+				obs.I(0, th.res.r1, th.res.r2)
+				if both && th.res.r1 == 3 {
+					choice = 1
+				}
+			default:
+				obs.I(int64(p), 0, 0)
+				if both && was == 301 && p == 308 {
+					choice = 1
+				}
+				if was == 103 && p == 104 && (th.kind == 13 || th.kind == 14) {
+					barriers++
+					th.ackOrd = barriers
+				}
+				if th.kind == 13 && p == 340 {
+					sawLapOrSync = true
+				}
+				if th.kind == 15 && p == 312 {
+					sawDrain = true
+				}
+			}
+			if p > 0 {
+				th.at = p
+			} else if p == 0 {
+				th.at = 0
+			}
+			snapshot(obs)
+			w.O(ints(2, int64(th.tid), choice), obs)
+		}
+		m.countN("schedule_steps", int64(steps))
+		if !hasClose {
+			// every thread is done or idle: all accepted writes are applied
+			v, ok := c.Get(7)
+			if !ok {
+				v = 0
+			}
+			w.O(ints(3), ints(int64(v)))
+		}
+		// uncompared shutdown: let everything run freely and close
+		kioshun.VerifSchedRelease()
+		c.Close()
+		time.Sleep(200 * time.Microsecond)
+		kioshun.VerifSchedReset(false, 0)
+		unwatch()
+		if sawQueued && sawDrain && sawLapOrSync {
+			m.nontrivial(fmt.Sprintf("ring%d/b%d/p%d/s%v/c%v", ring, conf.WriteBatchSize, np, hasSync, hasClose))
+		}
+		if t < 3 {
+			m.sample(fmt.Sprintf("%s: %d threads, %d steps", ctx, len(ths), steps))
+		}
+	}
+	w.Close()
+	m.Traces, m.Ops = w.traces, w.ops
+	m.write(o.out)
+}
